@@ -2,7 +2,7 @@
 PROP = {
     "lean_modules": ["ConduitModel.Props.C06", "ConduitModel.Facts.C06"],
     "jobs": [
-        {"harness": "h_srcack", "comp": "srcstop", "driver": "srcack", "n_quick": 400, "n_thorough": 10000, "timeout": 2400,
+        {"harness": "h_srcack", "comp": "srcstop", "driver": "srcack", "n_quick": 400, "n_thorough": 6000, "timeout": 2400,
          "relevant": lambda case: "fail:" in case["model"] or case["impl"] != "ok",
          "why": "a graceful stop (Source.Teardown, then WaitPersisted) at a random instant of a run of the real Source+Persister "
                 "gives a trace M3 does not accept, or the C06 monitor fails at the return of Teardown (acks not all delivered, "
